@@ -101,7 +101,11 @@ def run(ck, prog, ctx):
         ck.ob("TABLE", "version/accepted", set(r["arms"]) == {2, 3}, "the header reader accepts version bytes %s (documented: 2 and 3)" % sorted(r["arms"]), where=b.where())
         for v, vs in sorted(r["arms"].items()):
             ck.ob("TABLE", "version/map/%d" % v, vs == {"V%d" % v}, "version byte %d is parsed as %s" % (v, "/".join(sorted(vs)) or "nothing"), where=b.where())
-        if r["otherwise"] is not None:
+        if r.get("unknown") is not None:
+            un = r["unknown"]
+            ck.ob("DOM", "version/unknown->Err", un == {"Err"}, "an unknown version byte after the magic %s (decision table over %d paths)" % ("can only reach an Err" if un == {"Err"} else "can reach %s" % sorted(str(x) for x in un), r["paths"]), where=b.where())
+            ck.ob("TABLE", "version/no-magic-accepted", r["no_magic_results"] <= {"Ok"}, "input without the magic ends in %s (a headerless v1 ontology must be accepted)" % sorted(str(x) for x in r["no_magic_results"]), where=b.where())
+        elif r["otherwise"] is not None:
             reg = b.region(r["otherwise"])
             oks = [st for x in reg for st in b.blocks[x].stmts if st.k == "assign" and st.rv["k"] == "agg" and st.rv.get("variant") == "Ok"]
             errs = [st for x in reg for st in b.blocks[x].stmts if st.k == "assign" and st.rv["k"] == "agg" and st.rv.get("variant") == "Err"]
